@@ -1460,7 +1460,7 @@ def rule_D10(ctx):
                 r.finding(f["path"], "character-dropped:%s" % f["name"], loc(lp), "an iteration of the character loop of `%s` (%s) can end without appending to the output, changing the parser state, failing or stopping - in %d way(s), %d documented: a character of the literal is silently dropped and the literal denotes something else than it spells" % (f["name"], loc(lp), total, allowed))
             elif allowed:
                 r.info.append("documented drop in %s: %s" % (f["name"], al[f["name"]]["why"]))
-    r.floor("character loops in the literal parsers", n_loops, 4)
+    r.floor("character loops in the literal parsers", n_loops, 3)
     for f in F.fns_in("gfixture::round3::d10::"):
         if f["kind"] == "Closure" or not f.get("name", "").startswith(("ctl_", "ok_")):
             continue
